@@ -1230,6 +1230,10 @@ pub fn run_c07_processes(tier: &str, batch_seed: u64) -> LayerBResult {
             let runner = Runner::new(&scratch);
             let mut i = t;
             while i < n_programs {
+                // every hanging process costs 30 s: after a few the point is made
+                if result.lock().unwrap().3.get("process-hang/30s").map(|(_, n)| *n).unwrap_or(0) >= 6 {
+                    break;
+                }
                 let seed = splitmix64(batch_seed ^ tag("C07-processes") ^ splitmix64(i));
                 let (prog, no_std, many) = if i % 4 == 1 {
                     let k = (i / 4) as usize;
